@@ -172,7 +172,7 @@ def run(ck):
     n = 60 if ck.tier == 'quick' else 800
     dis, viol = [], []
     worst = [0.0, 0.0]
-    fams = ['dipole', 'vee', 'ell', 'tee', 'star', 'monopole', 'monopole_top', 'array', 'monopole_taper', 'monopole_taper', 'stub_top', 'stub_top']
+    fams = ['dipole', 'vee', 'ell', 'tee', 'star', 'monopole', 'monopole_top', 'array', 'monopole_taper', 'monopole_taper', 'stub_top', 'stub_top', 'close_grounded', 'close_grounded']
     for i in range(n):
         ant = antgen.gen_antenna(rng, families=fams, max_pulses=12 if ck.tier == 'quick' else 30, ground=True)
         if not ant['ground'] or not c06.in_domain(ant):
